@@ -17,7 +17,7 @@ func TestCheck(t *testing.T) {
 	defer r.Finish()
 
 	r.Rule("Grid: transport path (plain UDP against six servers with MaxUDPRespSize 0/512/1024/1232/4096/65535, TCP, DoT, DoQ, " +
-		"DoH h2 POST/GET, h1 POST, plain-HTTP POST, h3 in the thorough tier, DNSCrypt UDP/TCP) x advertised EDNS size " +
+		"DoH h2 POST/GET, h1 POST, plain-HTTP POST, the JSON endpoint asked for wire format (h2, h1), h3 in the thorough tier, DNSCrypt UDP/TCP) x advertised EDNS size " +
 		"{no OPT,0,511,512,513,1232,4096,65535} x request option subset (16 subsets of DO, padding, keep-alive, NSID 0/5/50/200, " +
 		"cookie, ECS) x TTL field of the request OPT (plain, EDNS version 1/2/255, extended RCODE, Z bits, all three; sampled per cell and " +
 		"enumerated against every path and handler OPT kind in the boundary group opt-ttl) x handler response without / with a plain / with an odd OPT x handler response size (general sizes, " +
@@ -32,8 +32,11 @@ func TestCheck(t *testing.T) {
 	r.Assume("shared-cloner phase: one dnsmsg.Cloner is the Disposer of all servers of a separate bench and the handler answers from Cloner.Clone of stored messages (bare OPT, empty option list, one EDE option, unpacked bare OPT, no OPT); " +
 		"batches of clients that ask for padding/keep-alive (DoT, TCP, DoH, DoQ) alternate with batches of clients that ask for neither on every transport; reuse of disposed OPT records is measured by pointer identity in the handler")
 	r.Assume("ecs-cache phase: the handler is ecscache.NewMiddleware (context with agd.RequestInfo, Cloner shared with the servers' Disposer) over a scripted upstream answering with H8's responses; " +
-		"every name is asked three times (miss, then hits over other transports / advertised sizes); responses are judged against the request the client sent; record TTLs are not compared there (the cache counts them down)")
+		"every name is asked three times (miss, then hits over other transports / advertised sizes); the upstream's answers carry no OPT, or an OPT with an Extended DNS Error option plus the hop-by-hop options the forwarded query asked for " +
+		"(padding, keep-alive, cookie, NSID), or plus all of them unsolicited, or padding + keep-alive without EDE; in a third of the histories the first client asks for padding / keep-alive over DoT, TCP, DoH or DoQ, the later clients never do; responses are judged against the request the client sent; record TTLs are not compared there (the cache counts them down)")
 	r.Assume("a handler that is not part of the repository and edits the request object before passing it to WriteMsg is outside the quantifier (the ResponseWriter contract makes the request it is given the client's request); the repository's own middlewares are inside, hence the ecs-cache phase")
+	r.Assume("json-wire paths: GET /resolve?...&ct=application/dns-message returns wire format from the JSON endpoint; the client cannot send an OPT there (the server builds the query, with an OPT of its own only for do=1), " +
+		"so the size bound, the truncation rules and the padding / keep-alive rules are judged, the OPT-echo rule is not")
 	r.Assume("a configured maximum of 0 (the zero value of ConfigDNS.MaxUDPRespSize, which is all a direct user of the package gets; its doc comment names no default) is a configured maximum like any other: the statement's formula gives the bound max(512, min(advertised, 0)) = 512")
 	r.Assume("silent-handler cells: the handler returns nil or an error WITHOUT writing; the plain UDP/TCP/DoT servers document silence / closing the connection for nil and DoH answers HTTP 500, which are recorded as no-response; every DNS response a server generates itself (SERVFAIL) is judged by the OPT, size, padding and keep-alive rules like any other")
 	r.Assume("the client's UDP size = the CLASS field of the request's OPT, verbatim (normalize documents reqOpt.UDPSize())")
@@ -130,11 +133,14 @@ func TestCheck(t *testing.T) {
 		&pathDef{name: "doh-h2-get", family: famDoH, variant: tbench.HTTP2, get: true, workers: 2},
 		&pathDef{name: "doh-h1-post", family: famDoH, variant: tbench.HTTP1TLS, workers: 2},
 		&pathDef{name: "doh-plain-post", family: famDoH, variant: tbench.HTTPPlain, workers: 2},
+		&pathDef{name: "doh-h2-json-wire", family: famDoH, variant: tbench.HTTP2, jsonWire: true, workers: 2},
+		&pathDef{name: "doh-h1-json-wire", family: famDoH, variant: tbench.HTTP1TLS, jsonWire: true, workers: 2},
 		&pathDef{name: "dnscrypt-udp", family: famDCUDP, cfg: 65535, workers: 3},
 		&pathDef{name: "dnscrypt-tcp", family: famDCTCP, workers: 2},
 	)
 	if r.Thorough() {
-		paths = append(paths, &pathDef{name: "doh-h3-post", family: famDoH, variant: tbench.HTTP3, h3: true, workers: 2})
+		paths = append(paths, &pathDef{name: "doh-h3-post", family: famDoH, variant: tbench.HTTP3, h3: true, workers: 2},
+			&pathDef{name: "doh-h3-json-wire", family: famDoH, variant: tbench.HTTP3, h3: true, jsonWire: true, workers: 2})
 	}
 
 	for _, p := range append(append(append([]*pathDef(nil), paths...), poolPaths...), ecsP...) {
@@ -189,7 +195,7 @@ func TestCheck(t *testing.T) {
 	r.Bucket("shared_cloner:class_B_responses_built_on_an_OPT_disposed_after_class_A", reused)
 
 	// The ecs-cache histories.
-	nHist := r.N(400, 4000)
+	nHist := r.N(600, 4000)
 	if err = e.runECS(ecsP, len(cells)+100_000, nHist, 6); err != nil {
 		r.Inconclusive("cannot build the ecs-cache cells: " + err.Error())
 
@@ -271,6 +277,10 @@ func TestCheck(t *testing.T) {
 	r.Require("boundary_group:shared-cloner-A:"+famDoT, int64(r.N(100, 500)))
 	r.Require("ecs_cache:miss:datagram-client-advertising-less-than-4096-and-answer-larger-than-that", int64(r.N(120, 1200)))
 	r.Require("ecs_cache:hit:datagram-client-advertising-less-than-4096-and-answer-larger-than-that", int64(r.N(100, 1000)))
+	r.Require("ecs_cache:hit:client-asking-for-neither-after-upstream-opt-with-padding-and-keepalive", int64(r.N(150, 1000)))
+	r.Require("ecs_cache:miss:client-asking-for-neither-after-upstream-opt-with-padding-and-keepalive", int64(r.N(50, 300)))
+	r.Require("ecs_cache:hit:client-asking-for-neither-after-upstream-opt-with-padding-and-keepalive:"+famUDP, int64(r.N(60, 400)))
+	r.Require("ecs_cache:hit:client-asking-for-neither-after-upstream-opt-with-padding-and-keepalive:"+famTCP, int64(r.N(8, 50)))
 	r.Require("ecs_cache:miss:"+famUDP, int64(r.N(150, 1500)))
 	r.Require("ecs_cache:miss:"+famDCUDP, int64(r.N(40, 400)))
 	r.Require("ecs_cache:hit:"+famUDP, int64(r.N(150, 1500)))
@@ -281,6 +291,8 @@ func TestCheck(t *testing.T) {
 	for _, f := range []string{famUDP, famTCP, famDoT, famDoQ, famDoH, famDCUDP, famDCTCP} {
 		r.Require("silent_handler:error:answered:"+f+":query-with-opt", 6)
 	}
+	r.Require("json_wire:handler-response-larger-than-65535:judged", 12)
+	r.Require("json_wire:handler-response-within-16-of-65535:judged", 40)
 	r.Require("udp_configured_max_0:advertised>512-and-answer>512:judged", 60)
 	r.Require("keepalive_returned:"+famTCP, 5)
 	r.Require("keepalive_returned:"+famDoT, 5)
